@@ -118,9 +118,25 @@ def run(prop, tier, seed, replay):
                 zpp = {k: {pid: cats[k][pid].redshifts for pid in cats[k].keys()} for k in cats}
                 handles = {k: [c] for k, c in cats.items()}
 
+                forced = []           # scripted histories name the handle to use (index into handles[k])
+
                 def pick(k):
+                    if forced:
+                        return handles[k][min(forced[0], len(handles[k]) - 1)]
                     return rng.choice(handles[k])
                 length = rng.randrange(2, 11 if tier == "quick" else 31)
+                # stratum (every 4th history): measure with B1 through the first handles, rebuild with another binning
+                # through handles opened later, measure with B1 again through the FIRST handles
+                script = None
+                if hi % 4 == 0:
+                    b1 = (rng.choice(EDGE_SETS), rng.choice(["left", "right"]))
+                    b2 = b1
+                    while b2 == b1:
+                        b2 = (rng.choice(EDGE_SETS), rng.choice(["left", "right"]))
+                    m = rng.choice(["auto", "cross"])
+                    script = [((m, b1), 0), (("reopen", "D"), 0), (("reopen", "R"), 0), (("reopen", "U"), 0),
+                              ((m, b2), 1), ((m, b1), 0)]
+                    length = len(script)
                 ops, model_ops = [], {k: [] for k in cats}
                 states = {k: [] for k in cats}
                 rep = {"history": [], "samples": {k: {a: np.asarray(v).tolist() for a, v in s.items() if a in ("ra", "dec", "z")}
@@ -171,7 +187,12 @@ def run(prop, tier, seed, replay):
                 for step in range(length):
                     last = step == length - 1
                     kind = rng.choice(["build", "build", "reopen", "auto", "cross"]) if not last else rng.choice(["auto", "cross"])
-                    if kind == "build":
+                    forced.clear()
+                    if script is not None:
+                        op, hidx = script[step]
+                        forced.append(hidx)
+                        kind = "scripted"
+                    elif kind == "build":
                         op = ("build", rng.choice(["D", "R", "U"]), rand_bin(), rng.random() < 0.25)
                     elif kind == "reopen":
                         op = ("reopen", rng.choice(["D", "R", "U"]))
